@@ -440,6 +440,13 @@ def judge(bundle, obs, kind):
                     f"normal mode raises {n['exc']['cls']} but check mode returns without reporting it (warnings: {c['warnings']})",
                 )
             )
+    if n["out"] == "returns" and c["out"] == "returns" and c["warnings"]:
+        out.append(
+            (
+                dict(base, **{"class": "normal-mode-silent", "exception": c["warnings"][0]}),
+                f"check mode reports {c['warnings']} but read_input returns without raising",
+            )
+        )
     if n["out"] == "returns":
         cnt = count_inputs(bundle)
         cells, surfs, data, mt = cnt if cnt is not None else (None, None, None, None)
